@@ -101,7 +101,7 @@ def _budget(ms):
     return budget_ms(ms)
 
 
-def z_check(formulas, env, timeout_ms=20000):
+def z_check(formulas, env, timeout_ms=20000, box=True):
     """sat -> model dict name->Fraction ; unsat -> None ; unknown -> 'unknown'"""
     import z3
 
@@ -109,7 +109,7 @@ def z_check(formulas, env, timeout_ms=20000):
     s.set("timeout", _budget(timeout_ms))
     for f in formulas:
         s.add(f)
-    for b in env.box():
+    for b in env.box() if box else []:
         s.add(b)
     r = s.check()
     if r == z3.unsat:
@@ -124,13 +124,14 @@ def z_check(formulas, env, timeout_ms=20000):
     return out
 
 
-def implies_exact(hyp_lists, concl_list, tol=TOL, hyp_slack=0):
+def implies_exact(hyp_lists, concl_list, tol=TOL, hyp_slack=0, box=True):
     """Is there a point in the box where all hypothesis lists hold and some conclusion term is violated by more than tol?
-    Returns the counter-model (dict) or None."""
+    Returns the counter-model (dict) or None.  box=False: anywhere (used where "implied" must not become easier inside the box:
+    a constraint that is redundant only because of the box is not redundant for the code, which works over all reals)."""
     env = Env()
     fs = [z_all(h, env, hyp_slack) for h in hyp_lists]
     fs.append(z_some_violated(concl_list, env, tol))
-    r = z_check(fs, env)
+    r = z_check(fs, env, box=box)
     return r
 
 
@@ -165,9 +166,9 @@ def exact_opt(tl, objective, maximize):
     return ("unknown",)
 
 
-def feasible_exact(tl):
+def feasible_exact(tl, box=True):
     env = Env()
-    r = z_check([z_all(tl, env)], env)
+    r = z_check([z_all(tl, env)], env, box=box)
     return r is not None
 
 
